@@ -142,19 +142,33 @@ def oracle(kind, model, alpha, n_points, impl):
     if not abs(beta - want) <= 1e-6 * max(1.0, abs(want)):
         bad.append(("beta_value", f"beta={beta!r} expected {want!r}"))
     # back-map through the model's own cdfs
-    U = np.empty_like(C)
-    with np.errstate(all="ignore"), warnings.catch_warnings():
-        warnings.simplefilter("ignore")
-        for i in range(n_dim):
-            ci = model.conditional_on[i]
-            if ci is None:
-                p = model.distributions[i].cdf(C[:, i])
-            else:
-                p = model.distributions[i].cdf(C[:, i], given=C[:, ci])
-            U[:, i] = sts.norm.ppf(np.asarray(p, dtype=float))
+    def backmap(X):
+        V = np.empty_like(X)
+        with np.errstate(all="ignore"), warnings.catch_warnings():
+            warnings.simplefilter("ignore")
+            for i in range(n_dim):
+                ci = model.conditional_on[i]
+                if ci is None:
+                    p = model.distributions[i].cdf(X[:, i])
+                else:
+                    p = model.distributions[i].cdf(X[:, i], given=X[:, ci])
+                V[:, i] = sts.norm.ppf(np.asarray(p, dtype=float))
+        return V
+
+    U = backmap(C)
+    # conditioning of the back-map at these points: how far u moves when the coordinates move by a few ulps
+    # (location parameters that grow with an extreme conditioning value cancel against x)
+    eps = 8 * np.finfo(float).eps
+    sens = np.zeros_like(U)
+    for k in range(n_dim):
+        for sgn in (1.0, -1.0):
+            Cp = C.copy()
+            Cp[:, k] = Cp[:, k] * (1 + sgn * eps)
+            d = np.abs(backmap(Cp) - U)
+            sens = np.maximum(sens, np.where(np.isfinite(d), d, np.inf))
     n_hyp = U.size
     r = np.sqrt((U * U).sum(axis=1))
-    tol_comp = 1e-8 + 5e-14 / np.maximum(sts.norm.pdf(np.abs(S)), 1e-300)
+    tol_comp = 1e-8 + 5e-14 / np.maximum(sts.norm.pdf(np.abs(S)), 1e-300) + 4 * sens
     tol_r = tol_comp.sum(axis=1)
     if not np.all(np.abs(r - beta) <= tol_r):
         j = int(np.argmax(np.abs(r - beta) - tol_r))
